@@ -1673,8 +1673,11 @@ class FileBuilder:
         operation = self._operation
         filename = operation.filename
         operation.raised = True
-        self._build_dirs.error_building_file(filename)
+
+        # Remove the file first, so that another thread doesn't mistake it for
+        # an external file that keeps the parent directories alive
         FileBuilder._try_to_remove_file(filename)
+        self._build_dirs.error_building_file(filename)
         logger.warning(
             'Failed to rebuild {:s}, due to an exception'.format(filename))
 
